@@ -208,6 +208,11 @@ pub enum Submit {
 	/// aggregate of two fresh transactions with height-locked kernels: one lock reached by the next
 	/// block, the other two blocks further on - the aggregate is locked until the later one
 	AggregatedMixedLocks,
+	/// a transaction that sits in the stempool comes back as a stem transaction with *another body
+	/// around the same kernel*: one more input and three more outputs (the kernel offset absorbs the
+	/// difference of the blinding factors), so the fee its kernel pays no longer covers its weight
+	/// unless the original paid well above the minimum. The pool recognises transactions by kernel.
+	StemSameKernelHeavier,
 }
 
 #[derive(Serialize, Deserialize, Clone, Debug, PartialEq)]
@@ -606,6 +611,36 @@ impl<'w, P: PoolAdapter + 'static> PoolSim<'w, P> {
 		Some(tx)
 	}
 
+	/// `t` with one more input (`x`) and three more outputs that split `x`'s value, the kernel - and with
+	/// it the fee - unchanged: the kernel offset absorbs the difference of the blinding factors.
+	fn same_kernel_other_body(&mut self, t: &Transaction, x: &OutInfo) -> Option<Transaction> {
+		use grin_keychain::{Keychain, SwitchCommitmentType};
+		let kc = self.world.wallet.keychain.clone();
+		let pb = grin_core::libtx::ProofBuilder::new(&kc);
+		let secp = kc.secp();
+		let k_in = kc.derive_key(x.value, &x.key_id, SwitchCommitmentType::Regular).ok()?;
+		let vals = [x.value / 3, x.value / 3, x.value - 2 * (x.value / 3)];
+		let mut pos = vec![t.offset.secret_key(secp).ok()?];
+		let mut outs: Vec<grin_core::core::Output> = t.outputs().to_vec();
+		for v in vals.iter() {
+			let id = self.world.wallet.fresh_key();
+			let commit = self.world.wallet.commit(*v, &id);
+			let proof = grin_core::libtx::proof::create(&kc, &pb, *v, &id, SwitchCommitmentType::Regular, commit, None).ok()?;
+			outs.push(grin_core::core::Output::new(grin_core::core::OutputFeatures::Plain, commit, proof));
+			pos.push(kc.derive_key(*v, &id, SwitchCommitmentType::Regular).ok()?);
+			self.world.wallet.known.insert(ckey(&commit), OutInfo { commit, value: *v, key_id: id, coinbase: false, height: 0, leaf: 0 });
+		}
+		let offset = secp.blind_sum(pos, vec![k_in]).ok()?;
+		let mut ins: Vec<grin_core::core::Input> = match t.inputs() {
+			grin_core::core::Inputs::FeaturesAndCommit(v) => v.clone(),
+			_ => return None,
+		};
+		ins.push(grin_core::core::Input::new(crate::world::out_features(x.coinbase), x.commit));
+		let tx = Transaction::new(grin_core::core::Inputs::FeaturesAndCommit(ins), &outs, t.kernels()).with_offset(grin_keychain::BlindingFactor::from_secret_key(offset));
+		tx.validate(Weighting::AsTransaction).ok()?;
+		Some(tx)
+	}
+
 	/// The pool was reconciled by the real ChainToPoolAndNetAdapter while the block was processed; here
 	/// only the simulator's own notion of the head follows the recorded events.
 	fn absorb_block_events(&mut self) {
@@ -986,6 +1021,26 @@ impl<'w, P: PoolAdapter + 'static> PoolSim<'w, P> {
 					self.make_spend(&[x], 1, Self::plain_fee(1, 1) + (r % 5) * 1_000_000, None, &mut rng)
 				}
 			}
+			Submit::StemSameKernelHeavier => {
+				let stemmed = self.pool.read().stempool.all_transactions();
+				let used = self.pool_inputs();
+				let extra: Option<OutInfo> = free.iter().find(|o| !used.contains(&ckey(&o.commit)) && o.value > 10).cloned();
+				match (stemmed.first().cloned(), extra) {
+					(Some(t), Some(x)) => {
+						let heavier = self.same_kernel_other_body(&t, &x);
+						if let Some(h) = &heavier {
+							let base = self.pool.read().config.accept_fee_base;
+							expect = if h.shifted_fee() < h.weight() * base { Some(false) } else { None };
+							self.probe("stem_same_kernel_heavier_body_submitted");
+							if expect == Some(false) {
+								self.probe("stem_same_kernel_heavier_body_under_fee");
+							}
+						}
+						heavier
+					}
+					_ => None,
+				}
+			}
 			Submit::FluffStemmed => {
 				let stemmed = self.pool.read().stempool.all_transactions();
 				if stemmed.is_empty() {
@@ -1347,6 +1402,17 @@ impl<'w, P: PoolAdapter + 'static> PoolSim<'w, P> {
 		if header.hash() != self.world.blocks[self.head].hash {
 			return Err(viol("harness-head-out-of-sync", format!("step {}: node head {} vs model #{}", step, header.hash(), self.head)));
 		}
+		// after an operation that connected blocks: the chain state is still the valid one. Submissions
+		// run their transactions through a read-only extension of the chain (`validate_tx`); whatever
+		// such an extension leaves behind in the MMR backends' buffers is flushed by the next accepted
+		// block. (Only after block operations: `validate` itself rolls an extension back and would wipe
+		// residue before it could do harm.)
+		if ctx.starts_with("Mine") || ctx.starts_with("Reorg") {
+			if let Err(e) = self.chain.validate(true) {
+				return Err(viol("chain-invalid-after-pool-traffic", format!("step {} ({}): Chain::validate(fast) fails after the pool judged submissions against this chain and a block was then accepted: {:?}", step, ctx, e)));
+			}
+			self.probe("chain_validated_after_block_op");
+		}
 		let txs = self.pool.read().txpool.all_transactions();
 		let stem = self.pool.read().stempool.all_transactions();
 		// nothing the pool refused has found its way in
@@ -1517,6 +1583,9 @@ pub fn gen_ops(rng: &mut SimRng, thorough: bool) -> Vec<Op> {
 	tail.push(Op::Reorg { depth: rng.range(2, 3), r: rng.next_u64() });
 	tail.push(Op::Submit { kind: Submit::JustMatureCoinbase, stem: false, r: rng.next_u64() });
 	tail.push(Op::Submit { kind: Submit::ImmatureCoinbase, stem: false, r: rng.next_u64() });
+	// a stem transaction at the bare minimum fee, then another body around its kernel, as stem again
+	tail.push(Op::Submit { kind: Submit::Valid, stem: true, r: r_mod(rng, 5, 0) });
+	tail.push(Op::Submit { kind: Submit::StemSameKernelHeavier, stem: true, r: rng.next_u64() });
 	tail.extend(vec![
 		// a stem transaction that depends on a pooled one, so that the eviction below may take its parent
 		Op::Submit { kind: Submit::Valid, stem: false, r: rng.next_u64() },
